@@ -357,7 +357,7 @@ class Body:
             kinds.add(rets[-1][1] if rets else "none")
         return kinds
 
-    def decision_rows(self, start=0, extra_classify=None):
+    def decision_rows_dp(self, start=0, extra_classify=None):
         """finite decision table of a small function: set of (conditions, result) where conditions is a tuple of
         (printed discriminant origin, origin, 'eq'|'ne', value(s)) taken on switch edges whose discriminant is a program value
         (constant switches are folded, drop-flag/tracing switches are ignored) and result describes the value assigned to _0."""
@@ -410,6 +410,187 @@ class Body:
             others = tuple(e for e in s if e[0] not in ("cond", "ret", "return", "loop", "diverge", "unreachable", "resume", "terminate"))
             rows.add((conds, rets[-1] if rets else ("ret", end, ()), others))
         return rows
+
+    def decision_rows(self, start=0, limit=40000):
+        """path-sensitive decision table of a small (acyclic) function: every path is enumerated explicitly and a
+        multiply-assigned local (a phi: drop flags, `a && b` temporaries, an inlined helper's return value) is resolved
+        to the definition that was executed on that path.  Rows: (conditions, result, ()) like decision_rows_dp."""
+        multi = {l for l, ds in self.defs().items() if len([d for d in ds if d[0] in ("stmt", "call") and not (d[0] == "stmt" and d[3]["place"]["p"])]) > 1}
+        back = self.back_edges()
+        rows = set()
+        count = [0]
+
+        def resolve(op, last, depth=0):
+            """origin of an operand with phi locals replaced by their definition on this path"""
+            p = op.get("copy") or op.get("move") if isinstance(op, dict) else None
+            if p is not None and not p["p"] and p["l"] in multi and p["l"] in last and depth < 12:
+                kind, bb, idx = last[p["l"]]
+                if kind == "stmt":
+                    rv = self.blocks[bb]["stmts"][idx]["rv"]
+                    return resolve_rv(rv, last, depth + 1)
+                t = self.blocks[bb]["term"]
+                dd, rd, ga, fn = callee(t)
+                return ("call", dd, rd, [resolve(a, last, depth + 1) for a in t["args"]], bb, ga)
+            o = self.origin(op)
+            return subst_phi(o, last, depth)
+
+        def subst_phi(o, last, depth):
+            if depth > 12 or not isinstance(o, tuple):
+                return o
+            if o and o[0] == "phi" and o[1] in last:
+                return resolve({"copy": {"l": o[1], "p": []}}, last, depth + 1)
+            return tuple(subst_phi(x, last, depth + 1) if isinstance(x, tuple) else ([subst_phi(y, last, depth + 1) for y in x] if isinstance(x, list) else x) for x in o)
+
+        def resolve_rv(rv, last, depth):
+            k = rv["k"]
+            if k == "use":
+                return resolve(rv["x"], last, depth)
+            if k == "bin":
+                return ("bin", rv["op"], resolve(rv["l"], last, depth), resolve(rv["r"], last, depth), rv.get("lty"))
+            if k == "un":
+                return ("un", rv["op"], resolve(rv["x"], last, depth))
+            if k == "cast":
+                return ("cast", rv["kind"], rv["from"], rv["to"], resolve(rv["x"], last, depth))
+            if k == "discr":
+                return ("discr", subst_phi(self.origin(rv["place"]), last, depth), rv.get("of"))
+            if k == "agg":
+                desc = ("adt", rv["adt"], rv["variant"], rv["vname"], tuple(rv["fields"])) if rv["agg"] == "adt" else (rv["agg"],)
+                return ("agg", desc, [resolve(o, last, depth) for o in rv["ops"]])
+            if k == "ref":
+                return ("ref", subst_phi(self.origin(rv["place"]), last, depth))
+            return ("rv", k)
+
+        def fold(o):
+            """constant-fold the few shapes that matter: discr of a literal aggregate, comparisons of constants, Not"""
+            if not isinstance(o, tuple):
+                return o
+            if o[0] == "discr" and isinstance(o[1], tuple) and o[1][0] == "agg" and o[1][1][0] == "adt":
+                en = self.mir.enums.get(o[1][1][1])
+                if en:
+                    for v in en["variants"]:
+                        if v["idx"] == o[1][1][2]:
+                            return ("const", int(v["discr"]), None, None)
+                return ("const", o[1][1][2], None, None)
+            if o[0] == "bin" and o[1] in ("Eq", "Ne", "Lt", "Le", "Gt", "Ge"):
+                a, b2 = fold(o[2]), fold(o[3])
+                if a[0] == "const" and b2[0] == "const" and a[1] is not None and b2[1] is not None:
+                    r = {"Eq": a[1] == b2[1], "Ne": a[1] != b2[1], "Lt": a[1] < b2[1], "Le": a[1] <= b2[1], "Gt": a[1] > b2[1], "Ge": a[1] >= b2[1]}[o[1]]
+                    return ("const", 1 if r else 0, None, None)
+                return ("bin", o[1], a, b2, o[4] if len(o) > 4 else None)
+            if o[0] == "un" and o[1] == "Not":
+                a = fold(o[2])
+                if a[0] == "const" and a[1] in (0, 1):
+                    return ("const", 1 - a[1], None, None)
+                return ("un", "Not", a)
+            return o
+
+        def norm_cond(o, kind, vals, listed):
+            """(text, 'eq'|'ne', values) with `X Eq const` / `X Ne const` / Not rewritten to a condition on X"""
+            o = fold(o)
+            if o[0] == "un" and o[1] == "Not" and kind in ("eq", "ne") and set(vals) <= {0, 1} and len(vals) == 1:
+                return norm_cond(o[2], kind, (1 - vals[0],), listed)
+            if o[0] == "bin" and o[1] in ("Eq", "Ne") and len(vals) == 1 and vals[0] in (0, 1):
+                a, b2 = o[2], o[3]
+                if b2[0] != "const" and a[0] == "const":
+                    a, b2 = b2, a
+                if b2[0] == "const" and b2[1] is not None and a[0] != "const":
+                    truth = (vals[0] != 0) if kind == "eq" else (vals[0] == 0)
+                    equal = truth if o[1] == "Eq" else not truth
+                    return ("cond", fmt_origin(a), "eq" if equal else "ne", (b2[1],), freeze(a))
+            return ("cond", fmt_origin(o), kind, tuple(vals), freeze(o))
+
+        def go(bb, last, conds, visited):
+            count[0] += 1
+            if count[0] > limit:
+                raise Undecidable("too many paths in %s" % self.name)
+            bl = self.blocks[bb]
+            last = dict(last)
+            for i, st in enumerate(bl["stmts"]):
+                if st["k"] == "assign" and not st["place"]["p"] and (st["place"]["l"] in multi or st["place"]["l"] == 0):
+                    last[st["place"]["l"]] = ("stmt", bb, i)
+            t = bl["term"]
+            k = t["k"] if t else "none"
+            if k == "call" and not t["dest"]["p"] and (t["dest"]["l"] in multi or t["dest"]["l"] == 0):
+                last[t["dest"]["l"]] = ("call", bb, -1)
+            if k == "return":
+                if 0 in last:
+                    kind, b0, i0 = last[0]
+                    if kind == "stmt":
+                        rv = self.blocks[b0]["stmts"][i0]["rv"]
+                        if rv["k"] == "agg":
+                            oo = [resolve(x, last) for x in rv["ops"]]
+                            ret = ("ret", rv.get("vname") or rv["agg"], tuple(fmt_origin(x) for x in oo), freeze(oo))
+                        elif rv["k"] == "use":
+                            oo = fold(resolve(rv["x"], last))
+                            ret = ("ret", "use", (fmt_origin(oo),), freeze([oo]))
+                        else:
+                            oo = fold(resolve_rv(rv, last, 0))
+                            ret = ("ret", rv["k"], (fmt_origin(oo),), freeze([oo]))
+                    else:
+                        tt = self.blocks[b0]["term"]
+                        dd, rd, ga, fn = callee(tt)
+                        oo = [resolve(x, last) for x in tt["args"]]
+                        ret = ("ret", "call:%s" % (rd or dd), tuple(fmt_origin(x) for x in oo), freeze(oo))
+                else:
+                    ret = ("ret", "none", ())
+                rows.add((tuple(conds), ret, ()))
+                return
+            if k in ("unreachable",):
+                return
+            if k in ("resume", "terminate", "coroutine_drop") or (k == "call" and t.get("target") is None):
+                rows.add((tuple(conds), ("ret", "diverge", ()), ()))
+                return
+            if k == "switch":
+                o = fold(resolve(t["discr"], last))
+                tg = [(int(v), tb) for v, tb in t["targets"]]
+                listed = [v for v, _ in tg]
+                if o[0] == "const" and o[1] is not None:
+                    want = [tb for v, tb in tg if v == o[1]]
+                    nxt = want[0] if want else t["otherwise"]
+                    if (bb, nxt) in back or nxt in visited:
+                        rows.add((tuple(conds), ("ret", "loop", ()), ()))
+                        return
+                    return go(nxt, last, conds, visited | {bb})
+                noise = "tracing" in str(o) or o[0] in ("phi", "deep", "unknown", "rv")
+                for s in sorted(set(self.succs()[bb])):
+                    vals = [v for v, tb in tg if tb == s]
+                    c = None
+                    if not noise:
+                        if vals and s != t["otherwise"]:
+                            c = norm_cond(o, "eq", vals, listed)
+                        elif s == t["otherwise"] and not vals:
+                            c = norm_cond(o, "ne", listed, listed)
+                        else:
+                            c = ("cond", fmt_origin(o), "any", tuple(vals), freeze(o))
+                    if (bb, s) in back or s in visited:
+                        rows.add((tuple(conds + ([c] if c else [])), ("ret", "loop", ()), ()))
+                        continue
+                    go(s, last, conds + ([c] if c else []), visited | {bb})
+                    if noise:
+                        break        # one representative edge of a tracing / undecidable switch is enough
+                return
+            for s in self.succs()[bb]:
+                if (bb, s) in back or s in visited:
+                    rows.add((tuple(conds), ("ret", "loop", ()), ()))
+                    continue
+                go(s, last, conds, visited | {bb})
+
+        import sys
+        old = sys.getrecursionlimit()
+        sys.setrecursionlimit(max(old, 10000))
+        try:
+            go(start, {}, [], frozenset())
+        finally:
+            sys.setrecursionlimit(old)
+        # merge rows that differ only in duplicated conditions
+        out = set()
+        for conds, ret, oth in rows:
+            seen = []
+            for c in conds:
+                if c not in seen:
+                    seen.append(c)
+            out.add((tuple(seen), ret, oth))
+        return out
 
     def loop_heads(self):
         return {v for (_u, v) in self.back_edges()}
@@ -682,6 +863,13 @@ class Body:
             return out
 
         return go(start)
+
+
+def freeze(o):
+    """hashable copy of an origin tree (lists -> tuples)"""
+    if isinstance(o, (list, tuple)):
+        return tuple(freeze(x) for x in o)
+    return o
 
 
 def fmt_origin(o, depth=0):
